@@ -9,6 +9,7 @@ mod c08;
 mod consts;
 mod gad;
 mod c09;
+mod c10;
 mod c11;
 mod c14;
 mod c15;
@@ -78,6 +79,7 @@ fn main() {
         "c06" => c06::main(rest),
         "c08" => c08::main(rest),
         "c09" => c09::main(rest),
+        "c10" => c10::main(rest),
         "c11" => c11::main(rest),
         "c14" => c14::main(rest),
         "c15" => c15::main(rest),
